@@ -59,6 +59,7 @@ package hydrex
 import (
 	"context"
 	"log/slog"
+	"strings"
 
 	"github.com/hydraide/hydraide/sdk/go/hydraidego/v3"
 	"github.com/hydraide/hydraide/sdk/go/hydraidego/v3/name"
@@ -133,6 +134,16 @@ func New(hydrunInterface hydraidego.Hydraidego) Hydrex {
 func (h *hydrex) Save(ctx context.Context, indexName string, domain string, items map[string]*CoreData) {
 
 	// get the current core data for the domain
+	// A key becomes the swamp part of the index swamp name, so it has to be a valid name part. Saving the
+	// valid keys of such a call used to leave core data and index out of step (the server rejects the whole
+	// index request); nothing is written instead.
+	for key := range items {
+		if key == "" || strings.Contains(key, "/") {
+			slog.Error("hydrex: key is empty or contains '/', nothing saved", "indexName", indexName, "domain", domain, "key", key)
+			return
+		}
+	}
+
 	existingCoreData := make(map[string]*CoreData)
 
 	coreDataName := h.createCoreDataName(indexName, domain)
